@@ -217,9 +217,13 @@ int32_t tls13NewTicket(ssl_t *ssl,
       containing the PSK and the session parameters.
     */
 
+    /* The key list is shared with other sessions: hold its lock while
+       the first key's name and key material are read. */
+    matrixSslSessTicketKeysLock();
     key = ssl->keys->sessTickets;
     if (key == NULL)
     {
+        matrixSslSessTicketKeysUnlock();
         psTraceErrr("Error: no session ticket keys loaded\n");
         tls13FreePsk(psk, ssl->hsPool);
         return PS_FAILURE;
@@ -229,6 +233,7 @@ int32_t tls13NewTicket(ssl_t *ssl,
     psDynBufAppendOctets(&buf, key->name, 16);
 
     psAesInitGCM(&ctx, key->symkey, key->symkeyLen);
+    matrixSslSessTicketKeysUnlock();
     rc = psAesReadyGCMRandomIV(&ctx, iv, NULL, 0, NULL);
     if (rc < 0)
     {
